@@ -1,10 +1,16 @@
 use crate::report::{Ctx, Outcome};
 
 pub mod c01;
+pub mod c05;
+pub mod c12;
+pub mod c14;
 
 pub fn dispatch(ctx: &Ctx) -> Option<Outcome> {
     Some(match ctx.id.as_str() {
         "C01" => c01::run(ctx),
+        "C05" => c05::run(ctx),
+        "C12" => c12::run(ctx),
+        "C14" => c14::run(ctx),
         _ => return None,
     })
 }
